@@ -22,6 +22,7 @@ type NilRules struct {
 	S       *Scope
 	need    map[string]int // fn|idx -> 0 unknown,1 no,2 yes
 	mayNilF map[*ssa.Function]int
+	inl     *Analysis // the callers seen with their unexported error-returning helpers inlined (callersImply)
 }
 
 func NewNilRules(r *Report, a *Analysis, s *Scope) *NilRules {
@@ -360,6 +361,20 @@ func (n *NilRules) callersImply(fc *FuncCtx, ap string, depth int) (bool, string
 			continue
 		}
 		if ok, _ := n.callersImply(cfc, cap, depth+1); ok && depth < 3 {
+			continue
+		}
+		// ... or by a step the caller ran before (doc, err := read(buf); if err != nil { return }; verify(doc)): the
+		// caller seen with its unexported error-returning helpers inlined
+		if n.inl == nil {
+			n.inl = NewAnalysis(n.A.P)
+			n.inl.Inline = func(f *ssa.Function) bool {
+				return n.A.P.InLibrary(f) && (f.Object() == nil || !f.Object().Exported()) && errIndex(f) >= 0 && len(f.Blocks) > 0
+			}
+		}
+		ifc := n.inl.Ctx(cs.Caller)
+		ifc.ensureConds()
+		iatom := "isnil(" + ifc.AP(arg) + rest + ")"
+		if n.inl.B.HasVar(iatom) && ifc.Implied(blk, n.inl.B.Not(n.inl.B.Var(iatom))) {
 			continue
 		}
 		return false, ""
